@@ -1,6 +1,7 @@
 package psim
 
 import (
+	"context"
 	"errors"
 	"fmt"
 	"io"
@@ -84,6 +85,23 @@ func (d *fillingDecoder) Decode(r io.Reader, t *dials.Type) (reflect.Value, erro
 	return v, nil
 }
 
+// fillingSource is the same for a wrapped (non-watching) SOURCE.
+type fillingSource struct {
+	l   WLayer
+	err error
+}
+
+func (s *fillingSource) Value(_ context.Context, t *dials.Type) (reflect.Value, error) {
+	if s.err != nil {
+		return reflect.Value{}, s.err
+	}
+	v := reflect.New(t.Type()).Elem()
+	if err := fillTranslated(v, "", s.l); err != nil {
+		return reflect.Value{}, err
+	}
+	return v, nil
+}
+
 func runC20Dec(c C20DecCase) (verdict vrt.Verdict) {
 	if len(c.Steps) == 0 {
 		return vrt.Discardf("no steps")
@@ -96,6 +114,8 @@ func runC20Dec(c C20DecCase) (verdict vrt.Verdict) {
 	}()
 	inner := &fillingDecoder{}
 	wrapped := sourcewrap.NewTransformingDecoder(inner, chain...)
+	innerSrc := &fillingSource{}
+	wrappedSrc := sourcewrap.NewTransformingSource(innerSrc, chain...)
 	typesSeen := map[int]bool{}
 	switched := 0
 	prev := -1
@@ -131,6 +151,27 @@ func runC20Dec(c C20DecCase) (verdict vrt.Verdict) {
 				return vrt.KeyedViolationf("decoder", "%s: the value behind the wrapper differs from what the inner decoder would have produced natively at %s (want vs got)", step, df)
 			}
 		}
+		// the same through ONE wrapped source value
+		innerSrc.l, innerSrc.err = st.L, inner.err
+		sgot, serr := wrappedSrc.Value(context.Background(), dials.NewType(pt))
+		if st.Err {
+			if serr == nil || !errors.Is(serr, errInner) {
+				return vrt.KeyedViolationf("source", "%s: the wrapped source returned %v, want the inner source's error", step, serr)
+			}
+		} else {
+			if serr != nil {
+				return vrt.KeyedViolationf("source", "%s: the wrapped source failed: %v", step, serr)
+			}
+			if sgot.Kind() == reflect.Pointer {
+				sgot = sgot.Elem()
+			}
+			if sgot.Type() != pt {
+				return vrt.KeyedViolationf("source", "%s: the wrapped source returned a %s, Dials asked for %s", step, sgot.Type(), pt)
+			}
+			if df := shape.Diff(wNative(pt, st.L), sgot); df != "" {
+				return vrt.KeyedViolationf("source", "%s: the value behind the wrapped source differs from the natively filled one at %s (want vs got)", step, df)
+			}
+		}
 		typesSeen[st.Type] = true
 		if prev >= 0 && prev != st.Type {
 			switched++
@@ -143,7 +184,7 @@ func runC20Dec(c C20DecCase) (verdict vrt.Verdict) {
 func TestC20Decoder(t *testing.T) {
 	vrt.Check(t, vrt.Prop[C20DecCase]{
 		ID: "C20", Name: "decoder", NoJournal: true,
-		Rule: "ONE sourcewrap.NewTransformingDecoder value (one of the 9 mangler lists of C20/transforming) around an inner decoder that fills whatever translated type it is handed, used for 1..6 decodes in a row into three different config types (same dials-tag vocabulary, different Go names / field orders / subsets), the inner decoder failing in some; " +
+		Rule: "ONE sourcewrap.NewTransformingDecoder value and ONE NewTransformingSource value (one of the 9 mangler lists of C20/transforming) around an inner decoder / source that fills whatever translated type it is handed, used for 1..6 decodes in a row into three different config types (same dials-tag vocabulary, different Go names / field orders / subsets), the inner decoder failing in some; " +
 			"oracle: each result has exactly the type Dials asked for in THAT call and equals the natively filled value of that type; an inner error comes back as that error; " +
 			"non-trivial = a type-changing mangler list and at least one switch of config type between consecutive decodes; distinct = distinct case JSON",
 		Assumptions: []string{"the inner decoder honours the contract: it returns values of the type it was given"},
